@@ -38,6 +38,7 @@ const ORDER_TARGETS: &[(u32, &str, &str)] = &[
     (41, "crates/ripd/src/session.rs", "run_openresponses_agent_loop"),
     (42, "crates/ripd/src/tasks/mod.rs", "run_task"),
     (43, "crates/ripd/src/session.rs", "stream_openresponses_request"),
+    (44, "crates/ripd/src/server.rs", "thread_post_message"),
 ];
 
 const CONST_TARGETS: &[(&str, &str)] = &[
@@ -45,6 +46,7 @@ const CONST_TARGETS: &[(&str, &str)] = &[
     ("crates/ripd/src/runner.rs", "EVENT_CHANNEL_CAPACITY"),
     ("crates/ripd/src/tasks/mod.rs", "EVENT_CHANNEL_CAPACITY"),
     ("crates/ripd/src/tasks/mod.rs", "OUTPUT_EVENT_MAX_BYTES"),
+    ("crates/ripd/src/provider_openresponses.rs", "DEFAULT_MAX_TOOL_CALLS"),
     ("crates/rip-tui/src/state.rs", "DEFAULT_MAX_FRAMES"),
     ("crates/rip-tui/src/state.rs", "DEFAULT_MAX_OUTPUT_BYTES"),
     ("crates/rip-tui/src/state.rs", "DEFAULT_MAX_PREVIEW_BYTES"),
@@ -158,6 +160,14 @@ impl<'ast> Visit<'ast> for Collect {
             "write_all" | "write" if recv == "file" || recv == "writer" || recv == "guard" => self.out.push(Eff::FsWrite),
             "flush" => self.out.push(Eff::FsFlush),
             "send" if recv == "request" => self.out.push(Eff::Mark("httpSend")),
+            // run lifecycle (C07): the thread frames a run appends, in source order
+            "append_message" => self.out.push(Eff::Mark("appendMessage")),
+            "append_run_spawned" => self.out.push(Eff::Mark("runSpawned")),
+            "spawn_session" => self.out.push(Eff::Mark("spawnSession")),
+            "append_context_selection_decided" => self.out.push(Eff::Mark("selDecided")),
+            "append_context_compiled" => self.out.push(Eff::Mark("compiled")),
+            "append_provider_cursor_updated" => self.out.push(Eff::Mark("cursorUpdated")),
+            "append_run_ended" => self.out.push(Eff::Mark("runEnded")),
             _ => {}
         }
     }
@@ -172,6 +182,12 @@ impl<'ast> Visit<'ast> for Collect {
                     let g = last_ident(a);
                     self.out.push(Eff::Unlock(lock_id_of_guard(&g)));
                 }
+            }
+            if name == "write_snapshot" {
+                self.out.push(Eff::Mark("writeSnapshot"));
+            }
+            if name == "run_openresponses_agent_loop" {
+                self.out.push(Eff::Mark("agentLoop"));
             }
             if name == "emit_events" {
                 self.out.push(Eff::EmitBatch);
@@ -190,6 +206,25 @@ impl<'ast> Visit<'ast> for Collect {
         // closure bodies run later (stream combinators); their effects are not part of this order
     }
     fn visit_expr_async(&mut self, _a: &'ast syn::ExprAsync) {}
+}
+
+/// early exits of a function body: `return` expressions and `?` operators (closures and async blocks excluded)
+struct ExitCount {
+    n: u32,
+}
+
+impl<'ast> Visit<'ast> for ExitCount {
+    fn visit_expr_return(&mut self, r: &'ast syn::ExprReturn) {
+        self.n += 1;
+        syn::visit::visit_expr_return(self, r);
+    }
+    fn visit_expr_try(&mut self, t: &'ast syn::ExprTry) {
+        self.n += 1;
+        syn::visit::visit_expr_try(self, t);
+    }
+    fn visit_expr_closure(&mut self, _c: &'ast syn::ExprClosure) {}
+    fn visit_expr_async(&mut self, _a: &'ast syn::ExprAsync) {}
+    fn visit_item(&mut self, _i: &'ast syn::Item) {}
 }
 
 fn lock_id_of_guard(guard: &str) -> u32 {
@@ -634,6 +669,7 @@ fn main() {
 
     // ---- effect orders
     let mut orders: Vec<(u32, String, Vec<Eff>)> = Vec::new();
+    let mut exits: Vec<(u32, u32)> = Vec::new();
     for (id, file, path) in ORDER_TARGETS {
         if let Err(e) = load(file, &mut parsed) {
             errors.push(e);
@@ -650,6 +686,9 @@ fn main() {
             Some(block) => {
                 let mut effs = Vec::new();
                 effects_of_block(&block, &mut effs);
+                let mut ec = ExitCount { n: 0 };
+                ec.visit_block(&block);
+                exits.push((*id, ec.n));
                 if effs.is_empty() {
                     errors.push(format!("{file}: function {path}: no recognised effect (shape not recognised)"));
                 }
@@ -808,7 +847,7 @@ fn main() {
     // ---- emit Lean
     let mut lean = String::new();
     lean.push_str("/- GENERATED by ripx from /repo's current source. Do not edit. -/\nnamespace Rip.Gen\n\n");
-    lean.push_str("inductive Eff\n  | publish | record | lock (n : Nat) | unlock (n : Nat) | logAppend | cacheAppend | bump\n  | subscribe | snapshot | seqLoad | createThread | runTool | emitBatch | sideEffects | runProcess | fsWrite | fsFlush\n  | brNeedsLock | brNoLock | brBarred | brAllowed | brEnd | validateGate | httpSend\n  deriving Repr, DecidableEq\n\n");
+    lean.push_str("inductive Eff\n  | publish | record | lock (n : Nat) | unlock (n : Nat) | logAppend | cacheAppend | bump\n  | subscribe | snapshot | seqLoad | createThread | runTool | emitBatch | sideEffects | runProcess | fsWrite | fsFlush\n  | brNeedsLock | brNoLock | brBarred | brAllowed | brEnd | validateGate | httpSend\n  | appendMessage | runSpawned | spawnSession | selDecided | compiled | cursorUpdated | runEnded | writeSnapshot | agentLoop\n  deriving Repr, DecidableEq\n\n");
     lean.push_str("/-- lock ids: 1 = recorded-frames buffer, 2 = task seq counter, 3 = continuity next_seq map, 4 = index, 5 = log file, 9 = other -/\n");
     lean.push_str("def effectOrders : List (Nat × List Eff) := [\n");
     for (k, (id, path, effs)) in orders.iter().enumerate() {
@@ -820,6 +859,9 @@ fn main() {
     }
     lean.push_str("]\n\n");
     lean.push_str("def orderOf (id : Nat) : List Eff := match effectOrders.find? (fun e => e.1 == id) with | some e => e.2 | none => []\n\n");
+    lean.push_str("/-- (function id, number of early exits: `return` expressions and `?` operators in its body) -/\n");
+    lean.push_str(&format!("def earlyExits : List (Nat × Nat) := [{}]\n\n", exits.iter().map(|(i, n)| format!("({i}, {n})")).collect::<Vec<_>>().join(", ")));
+    lean.push_str("def earlyExitsOf (id : Nat) : Nat := match earlyExits.find? (fun e => e.1 == id) with | some e => e.2 | none => 1000\n\n");
     lean.push_str("end Rip.Gen\n");
     write_if_changed(&out.join("EffectOrder.lean"), &lean);
 
@@ -895,6 +937,7 @@ fn main() {
             "consts": consts.iter().map(|(n, v)| json!({"name": n, "value": v.to_string()})).collect::<Vec<_>>(),
             "schema": schema.as_ref().map(schema::to_json),
             "source_digests": digests,
+            "lock_table": {"exempt": exempt},
         });
         std::fs::write(p, serde_json::to_string_pretty(&v).unwrap()).expect("write json");
     }
